@@ -111,12 +111,62 @@ def _gates(ex, st, post, result):
            'said yes (each only if configured)')
 
 
-contract(W + 'WMSSource.get_map', props=['C17'],
+def _blank_only_when_outside(ex, st, post, exc):
+    """BlankImage (the layer contributes nothing) is raised only when the request really lies outside the source"""
+    import z3
+    h = st.heap[post.env['self'].ref]
+    cov, rr = h['coverage'], h['res_range']
+    if T.evs(st, '_get_map', 'WMSSource._get_map'):
+        return      # raised further down (by the upstream request itself): not this function's decision
+    inter = [c for j, c in T.evs(st, 'intersects') if c.recv is not None and c.recv.t.eq(cov.val.t)]
+    cont = [c for j, c in T.evs(st, 'contains') if c.recv is not None and c.recv.t.eq(rr.val.t)]
+    out_cov = z3.And(ex.truth(st, cov), z3.Or([z3.Not(ex.truth(st, c.result)) for c in inter] or [z3.BoolVal(False)]))
+    out_rr = z3.And(ex.truth(st, rr), z3.Or([z3.Not(ex.truth(st, c.result)) for c in cont] or [z3.BoolVal(False)]))
+    yield ('blank_only_outside_coverage_or_range', z3.Or(out_cov, out_rr),
+           'the source declares itself blank for a request only if its coverage does not intersect it or its resolution range '
+           'excludes it - a source without these limits always renders')
+
+
+def _source_result(ex, st, post, result):
+    import z3
+    from pyvc.values import eq
+    h = st.heap[post.env['self'].ref]
+    gm = [e for i, e in T.evs(st, '_get_map', 'WMSSource._get_map')]
+    mt = [e for i, e in T.evs(st, 'make_transparent')]
+    hd = [e for i, e in T.evs(st, 'handle')]
+    if hd:
+        # the upstream request failed and the configured error handler supplied a substitute image
+        ok = len(gm) == 1 and gm[0].raised == 'HTTPClientError' and len(hd) == 1 and (result is hd[0].result or getattr(hd[0].result, 'val', None) is result) \
+            and len(hd[0].args) == 2 and hd[0].args[1] is post.env['query']
+        yield ('substitute_image_only_from_error_handler', z3.And(z3.BoolVal(bool(ok)), ex.truth(st, h['error_handler']), ex.truth(st, hd[0].result)),
+               'after an upstream HTTP error the answer is what the configured error handler returns for (response code, query)')
+        return
+    ok = len(gm) == 1 and not gm[0].raised and len(gm[0].args) >= 1 and gm[0].args[-1] is post.env['query']
+    g = z3.BoolVal(bool(ok))
+    if ok:
+        keyed = ex.truth(st, h['transparent_color'])
+        if mt:
+            okm = len(mt) == 1 and len(mt[0].args) == 3 and mt[0].args[0] is gm[0].result and result is mt[0].result
+            g = z3.And(g, keyed, z3.BoolVal(bool(okm)))
+            if okm:
+                g = z3.And(g, eq(mt[0].args[1], h['transparent_color']), eq(mt[0].args[2], h['transparent_color_tolerance']))
+        else:
+            g = z3.And(g, z3.Not(keyed), z3.BoolVal(result is gm[0].result))
+        so = [e for e in st.trace if e.name == 'setattr:opacity']
+        g = z3.And(g, z3.BoolVal(len(so) == 1 and so[0].recv is not None and so[0].recv.t.eq(result.t)),
+                   eq(so[0].args[1], h['opacity']) if len(so) == 1 else z3.BoolVal(False))
+    yield ('source_image_with_colour_key_and_opacity', g,
+           'the image returned is the upstream image for this query, made transparent with the configured colour key and '
+           'tolerance exactly when a key is configured, carrying the configured opacity of the source')
+
+
+contract(W + 'WMSSource.get_map', props=['C17', 'C14'],
          types=dict(query='opaque'), returns='opaque', default_callee='opaque',
          opaque_fields=QF, stable_fields=['bbox', 'size', 'srs'],
          opaque_spec=dict(SPEC, _get_map={'raises': ['HTTPClientError']}), opaque=['_get_map'],
          raises={'BlankImage': True, 'SourceError': True, 'Exception': True},
-         trace=[_gates])
+         raises_ensures={'BlankImage': [_blank_only_when_outside]},
+         trace=[_gates, _source_result])
 
 
 # ---- sub-extent placement: the bbox sent upstream is the request clipped to the source extent -------------------------
